@@ -271,7 +271,12 @@ def run_c17(tier, seed, only_ops=None, only_types=None):
     cases = [(o, t) for o in ops for t in (only_types or ALL_TYPES) if t in entries.SOPS[o][2]]
     text = "#include <xsimd/xsimd.hpp>\n#include <cstdint>\n" + "".join(entries.scalar_entry_text(*c) for c in cases)
     roots = [entries.scalar_entry_name(*c) for c in cases]
-    rep = check.run_groups("C17", {"scalar": (text, roots)}, tier, seed, props_filter=lambda fn: table.prop_of(fn) == "C17")
+    groups = {"scalar": (text, roots)}
+    if not only_ops or "clip" in only_ops:
+        # the batch counterpart of clip is proved against the same specification as the scalar overload
+        bc = [("clip", t, a) for t in (only_types or ALL_TYPES) for a in (["sse2", "avx512bw"] if tier == "quick" else [x for x in X86_ARCHS])]
+        groups["x86"] = (entries.tu_text(bc), [entries.entry_name(*c) for c in bc])
+    rep = check.run_groups("C17", groups, tier, seed, props_filter=lambda fn: table.prop_of(fn) == "C17")
     rep.notes["operations"] = ops
     rep.notes["agreement_argument"] = ("each scalar overload is proved against spec_<op>_<T>, the same specification function that is the per-lane "
                                        "postcondition of the batch kernels (C01/C03/C07); agreement of scalar tail and vector body follows")
